@@ -491,6 +491,44 @@ func GenStream(d D, o StreamOpts) (*fitmodel.Stream, *GenInfo) {
 		maxFields = 8
 	}
 	for i := 0; i < nrec; i++ {
+		// now and then a field_description message that describes a
+		// developer field of a definition that is in force on another local
+		// type, with a drawn base type (it may or may not fit the size the
+		// definition gives the developer field: only the definition governs
+		// how records are laid out)
+		if o.DevFields && tab.Msgs[206] != nil {
+			var live []fitmodel.DevFieldDef
+			holder := -1
+			for l := 0; l < 16; l++ {
+				if slots[l] != nil && len(slots[l].Dev) > 0 {
+					live, holder = slots[l].Dev, l
+				}
+			}
+			if holder >= 0 && d.Int(0, 5, "fdesc") == 0 {
+				local := d.Int(0, 15, "fdesclocal")
+				if local == holder {
+					local = (local + 1) % 16
+				}
+				dv := live[d.Int(0, len(live)-1, "fdescdev")]
+				mi := tab.Msgs[206]
+				def := fitmodel.Rec{IsDef: true, Local: byte(local), Global: 206, BigEndian: o.BigEndian && d.Bool("fdescbe")}
+				raw := []byte{}
+				vals := map[byte]byte{0: dv.Idx, 1: dv.Num, 2: []byte{0x02, 0x84, 0x86, 0x88, 0x8E, 0x01, 0x07, 0x0D, 0x8C}[d.Int(0, 8, "fdescbase")]}
+				for _, n := range []byte{0, 1, 2} {
+					if fi := mi.Fields[n]; fi != nil && fitmodel.MustBase(fi.Base).Size == 1 && !fi.Array {
+						def.Fields = append(def.Fields, fitmodel.FieldDef{Num: n, Size: 1, Base: fi.Base})
+						raw = append(raw, vals[n])
+					}
+				}
+				if len(def.Fields) == 3 {
+					s.Recs = append(s.Recs, def, fitmodel.Rec{Local: byte(local), Raw: raw})
+					dc := def
+					slots[local] = &dc
+					info.Labels["field-description-for-a-live-developer-field"]++
+					continue
+				}
+			}
+		}
 		// choose the message
 		var g uint16
 		known := true
